@@ -1412,10 +1412,11 @@ func ExistExpr(query *Query, current Map, expr *sqlparser.ExistsExpr, opts ...Ex
 			return false, INVALID_TYPE.Extend(fmt.Sprintf("failed to build `EXIST` expression. expected an object but found %T", item))
 		}
 		merged := make(Map, len(item)+len(current))
-		for key, value := range item {
+		for key, value := range current {
 			merged[key] = value
 		}
-		for key, value := range current {
+		// the element's own columns hide the outer row's columns of the same name
+		for key, value := range item {
 			merged[key] = value
 		}
 		from[i] = merged
